@@ -792,6 +792,153 @@ Proof.
            apply (bounded_mono cs sp); [lia|assumption].
         -- intros _. cbn [rel]. exists (len src), m. auto.
 Qed.
+
+(* ---------- termination: an explicit fuel bound ---------- *)
+Fixpoint icount (items : list fitem) : Z :=
+  match items with
+  | [] => 0
+  | FRepeat ty _ :: r =>
+      (if (ty =? 42) || (ty =? 45) then 3 else if (ty =? 43) || (ty =? 63) then 2 else 0) + icount r
+  | _ :: r => 1 + icount r
+  end.
+
+Lemma icount_nonneg items : 0 <= icount items.
+Proof.
+  induction items as [|x r IH]; cbn [icount]; [lia|]. destruct x; try lia.
+  destruct ((ty =? 42) || (ty =? 45)); [lia|]. destruct ((ty =? 43) || (ty =? 63)); lia.
+Qed.
+
+(* depth of the deepest run from an item boundary: one level per instruction still ahead, three
+   per subject byte still ahead (a loop round is at most three instructions and eats a byte) *)
+Definition depth_bound (items : list fitem) (sp : Z) : Z := icount items + 3 + 3 * (len src - sp).
+
+Lemma epi_no_fuel fuel pc sp rl m :
+  code_at pc epi -> 2 <= Z.of_nat fuel -> rl + Z.of_nat fuel <= maxRecursionLevel ->
+  vm_run src prog fuel pc sp rl m <> VFuel.
+Proof.
+  intros Hcode Hf Hrl. destruct fuel as [|f]; [lia|]. unfold epi in Hcode. destruct tail.
+  - apply code_at_cons in Hcode as [H0 Hcode]. apply code_at_cons in Hcode as [H1 _].
+    vmstep H0. unfold setCapture. nocall.
+    destruct f as [|f1]; [lia|]. vmstep H1. destruct (sp >=? len src); discriminate.
+  - apply code_at_cons in Hcode as [H0 Hcode]. apply code_at_cons in Hcode as [H1 _].
+    vmstep H0. unfold setCapture. nocall.
+    destruct f as [|f1]; [lia|]. vmstep H1. discriminate.
+Qed.
+
+Lemma vm_no_fuel : forall fuel items pc sp rl m cap gstk,
+  code_at pc (emit items pc cap gstk ++ epi) ->
+  0 <= sp <= len src -> depth_bound items sp <= Z.of_nat fuel ->
+  rl + Z.of_nat fuel <= maxRecursionLevel ->
+  vm_run src prog fuel pc sp rl m <> VFuel.
+Proof.
+  induction fuel as [fuel IH] using lt_wf_ind.
+  induction items as [|it rest IHi]; intros pc sp rl m cap gstk Hcode Hsp HD Hrl;
+    unfold depth_bound in *;
+    [pose proof (icount_nonneg []) as Hic0 | pose proof (icount_nonneg (it :: rest)) as Hic0; pose proof (icount_nonneg rest) as Hic];
+    (destruct fuel as [|f]; [lia|]).
+  - cbn [emit app icount] in *. unfold epi in Hcode. destruct tail.
+    + apply code_at_cons in Hcode as [H0 Hcode]. apply code_at_cons in Hcode as [H1 _].
+      vmstep H0. unfold setCapture. nocall.
+      destruct f as [|f1]; [lia|]. vmstep H1. destruct (sp >=? len src); discriminate.
+    + apply code_at_cons in Hcode as [H0 Hcode]. apply code_at_cons in Hcode as [H1 _].
+      vmstep H0. unfold setCapture. nocall.
+      destruct f as [|f1]; [lia|]. vmstep H1. discriminate.
+  - assert (Hgo : forall f' pc' sp' rl' m' cap' gstk', (f' < S f)%nat ->
+               code_at pc' (emit rest pc' cap' gstk' ++ epi) -> sp <= sp' <= len src ->
+               icount rest + 3 + 3 * (len src - sp') <= Z.of_nat f' ->
+               rl' + Z.of_nat f' <= maxRecursionLevel ->
+               vm_run src prog f' pc' sp' rl' m' <> VFuel).
+    { intros f' pc' sp' rl' m' cap' gstk' Hf' Hc' Hs' Hd' Hr'.
+      apply (IH f' Hf' rest pc' sp' rl' m' cap' gstk'); try assumption; unfold depth_bound; lia. }
+    destruct it as [c|ty c| | | |n|b e]; cbn [icount] in HD.
+    + cbn [emit app] in Hcode. apply code_at_cons in Hcode as [H0 Hcode].
+      rewrite (vm_char f pc sp rl m c H0). destruct (cmatch src c sp) eqn:Ec; [|discriminate].
+      pose proof (cmatch_lt _ _ Ec). apply (Hgo f (pc + 1) (sp + 1) rl m cap gstk); try assumption; lia.
+    + (* FRepeat *)
+      assert (Hloop : forall f' rl' m', (f' < S f)%nat -> sp + 1 <= len src ->
+                 icount (FRepeat ty c :: rest) + 3 + 3 * (len src - (sp + 1)) <= Z.of_nat f' ->
+                 rl' + Z.of_nat f' <= maxRecursionLevel ->
+                 vm_run src prog f' pc (sp + 1) rl' m' <> VFuel).
+      { intros f' rl' m' Hf' Hs' Hd' Hr'.
+        apply (IH f' Hf' (FRepeat ty c :: rest) pc (sp + 1) rl' m' cap gstk); try assumption; unfold depth_bound; lia. }
+      cbn [icount] in Hloop. cbn [emit] in Hcode. unfold emit_repeat in Hcode.
+      destruct (ty =? 42) eqn:E42.
+      { cbn [orb] in *. rewrite <- app_assoc in Hcode. cbn [app] in Hcode.
+        change (len [ISplit (pc + 1) (pc + 3); IChar c; IJmp pc]) with 3 in Hcode.
+        apply code_at_cons in Hcode as [H0 Hcode]. apply code_at_cons in Hcode as [H1 Hcode].
+        apply code_at_cons in Hcode as [H2 Hcode]. replace (pc + 1 + 1 + 1) with (pc + 3) in Hcode by lia.
+        rewrite (vm_split f pc sp rl m _ _ H0). nocall.
+        destruct f as [|f1]; [lia|]. rewrite (vm_char f1 (pc + 1) sp (rl + 1) m c H1).
+        destruct (cmatch src c sp) eqn:Ec.
+        - pose proof (cmatch_lt _ _ Ec). destruct f1 as [|f2]; [lia|].
+          rewrite (vm_jmp f2 (pc + 1 + 1) (sp + 1) (rl + 1) m pc H2).
+          pose proof (Hloop f2 (rl + 1) m ltac:(lia) ltac:(lia) ltac:(lia) ltac:(lia)) as Hn.
+          destruct (vm_run src prog f2 pc (sp + 1) (rl + 1) m) as [[|] nsp m'| | |]; try discriminate; try congruence.
+          apply (Hgo (S (S f2)) (pc + 3) sp rl m' cap gstk); try assumption; lia.
+        - apply (Hgo (S f1) (pc + 3) sp rl m cap gstk); try assumption; lia. }
+      destruct (ty =? 43) eqn:E43.
+      { cbn [orb] in *. destruct (ty =? 45) eqn:E45; [lia|]. cbn [orb] in *.
+        rewrite <- app_assoc in Hcode. cbn [app] in Hcode. change (len [IChar c; ISplit pc (pc + 2)]) with 2 in Hcode.
+        apply code_at_cons in Hcode as [H0 Hcode]. apply code_at_cons in Hcode as [H1 Hcode].
+        replace (pc + 1 + 1) with (pc + 2) in Hcode by lia.
+        rewrite (vm_char f pc sp rl m c H0). destruct (cmatch src c sp) eqn:Ec; [|discriminate].
+        pose proof (cmatch_lt _ _ Ec). destruct f as [|f1]; [lia|].
+        rewrite (vm_split f1 (pc + 1) (sp + 1) rl m _ _ H1). nocall.
+        pose proof (Hloop f1 (rl + 1) m ltac:(lia) ltac:(lia) ltac:(lia) ltac:(lia)) as Hn.
+        destruct (vm_run src prog f1 pc (sp + 1) (rl + 1) m) as [[|] nsp m'| | |]; try discriminate; try congruence.
+        apply (Hgo f1 (pc + 2) (sp + 1) rl m' cap gstk); try assumption; lia. }
+      destruct (ty =? 45) eqn:E45.
+      { cbn [orb] in *. rewrite <- app_assoc in Hcode. cbn [app] in Hcode.
+        change (len [ISplit (pc + 3) (pc + 1); IChar c; IJmp pc]) with 3 in Hcode.
+        apply code_at_cons in Hcode as [H0 Hcode]. apply code_at_cons in Hcode as [H1 Hcode].
+        apply code_at_cons in Hcode as [H2 Hcode]. replace (pc + 1 + 1 + 1) with (pc + 3) in Hcode by lia.
+        rewrite (vm_split f pc sp rl m _ _ H0). nocall.
+        pose proof (Hgo f (pc + 3) sp (rl + 1) m cap gstk ltac:(lia) Hcode ltac:(lia) ltac:(lia) ltac:(lia)) as Hn.
+        destruct (vm_run src prog f (pc + 3) sp (rl + 1) m) as [[|] nsp m'| | |]; try discriminate; try congruence.
+        destruct f as [|f1]; [lia|]. rewrite (vm_char f1 (pc + 1) sp rl m' c H1).
+        destruct (cmatch src c sp) eqn:Ec; [|discriminate]. pose proof (cmatch_lt _ _ Ec).
+        destruct f1 as [|f2]; [lia|]. rewrite (vm_jmp f2 (pc + 1 + 1) (sp + 1) rl m' pc H2).
+        apply Hloop; lia. }
+      destruct (ty =? 63) eqn:E63.
+      { cbn [orb] in *. rewrite <- app_assoc in Hcode. cbn [app] in Hcode.
+        change (len [ISplit (pc + 1) (pc + 2); IChar c]) with 2 in Hcode.
+        apply code_at_cons in Hcode as [H0 Hcode]. apply code_at_cons in Hcode as [H1 Hcode].
+        replace (pc + 1 + 1) with (pc + 2) in Hcode by lia.
+        rewrite (vm_split f pc sp rl m _ _ H0). nocall.
+        destruct f as [|f1]; [lia|]. rewrite (vm_char f1 (pc + 1) sp (rl + 1) m c H1).
+        destruct (cmatch src c sp) eqn:Ec.
+        - pose proof (cmatch_lt _ _ Ec). replace (pc + 1 + 1) with (pc + 2) by lia.
+          pose proof (Hgo f1 (pc + 2) (sp + 1) (rl + 1) m cap gstk ltac:(lia) Hcode ltac:(lia) ltac:(lia) ltac:(lia)) as Hn.
+          destruct (vm_run src prog f1 (pc + 2) (sp + 1) (rl + 1) m) as [[|] nsp m'| | |]; try discriminate; try congruence.
+          apply (Hgo (S f1) (pc + 2) sp rl m' cap gstk); try assumption; lia.
+        - apply (Hgo (S f1) (pc + 2) sp rl m cap gstk); try assumption; lia. }
+      cbn [orb] in *. cbn [app] in Hcode. change (len (@nil inst)) with 0 in Hcode. replace (pc + 0) with pc in Hcode by lia.
+      apply (IHi pc sp rl m cap gstk); try assumption; try lia.
+    + cbn [emit app] in Hcode. apply code_at_cons in Hcode as [H0 Hcode]. vmstep H0.
+      apply (Hgo f (pc + 1) sp rl _ (cap + 2) gstk); try assumption; lia.
+    + cbn [emit app] in Hcode. apply code_at_cons in Hcode as [H0 Hcode]. vmstep H0.
+      destruct (setCapture m cap sp) as [old m1]. nocall.
+      pose proof (Hgo f (pc + 1) sp (rl + 1) m1 (cap + 2) (cap :: gstk) ltac:(lia) Hcode ltac:(lia) ltac:(lia) ltac:(lia)) as Hn.
+      destruct (vm_run src prog f (pc + 1) sp (rl + 1) m1) as [[|] nsp m'| | |]; try discriminate; congruence.
+    + destruct gstk as [|c0 gstk'].
+      * cbn [emit app] in Hcode. (* unbalanced close: compilePattern emitted nothing more; the epilogue follows *)
+        apply epi_no_fuel; try assumption; lia.
+      * cbn [emit app] in Hcode. apply code_at_cons in Hcode as [H0 Hcode]. vmstep H0.
+        destruct (setCapture m (c0 + 1) sp) as [old m1]. nocall.
+        pose proof (Hgo f (pc + 1) sp (rl + 1) m1 cap gstk' ltac:(lia) Hcode ltac:(lia) ltac:(lia) ltac:(lia)) as Hn.
+        destruct (vm_run src prog f (pc + 1) sp (rl + 1) m1) as [[|] nsp m'| | |]; try discriminate; congruence.
+    + cbn [emit app] in Hcode. apply code_at_cons in Hcode as [H0 Hcode]. vmstep H0.
+      destruct (n * 2 >=? len m - 1); [discriminate|]. destruct (isPosCapture m (n * 2)); [discriminate|].
+      destruct ((capture m (n * 2) >? capture m (n * 2 + 1)) || (capture m (n * 2 + 1) >? len src)); [discriminate|].
+      destruct (number_loop src (slice src (capture m (n * 2)) (capture m (n * 2 + 1))) 0 sp) eqn:En; [|discriminate].
+      rewrite number_loop_spec in En by lia. apply andb_true_iff in En as [En _].
+      pose proof (len_nonneg (slice src (capture m (n * 2)) (capture m (n * 2 + 1)))).
+      apply (Hgo f (pc + 1) _ rl m cap gstk); try assumption; lia.
+    + cbn [emit app] in Hcode. apply code_at_cons in Hcode as [H0 Hcode]. vmstep H0.
+      destruct ((sp >=? len src) || negb (bget src sp =? b)); [discriminate|].
+      destruct (brace_loop src (Z.to_nat (len src - sp)) (sp + 1) 1 b e) as [sp'|] eqn:Eb; [|discriminate].
+      apply brace_loop_bound in Eb. apply (Hgo f (pc + 1) sp' rl m cap gstk); try assumption; lia.
+Qed.
 End Sim.
 
 (* ---------- compilePattern = emit on the flattened tree ---------- *)
@@ -1125,4 +1272,63 @@ Proof.
     + destruct ok; exact I.
   - specialize (Hsim ltac:(discriminate)). rewrite (rel_err_bad _ _ _ _ _ (or_introl eq_refl) Hsim). exact I.
   - specialize (Hsim ltac:(discriminate)). rewrite (rel_err_bad _ _ _ _ _ (or_intror eq_refl) Hsim). exact I.
+Qed.
+
+(* ---------- vm_fuel is enough ---------- *)
+Lemma icount_app a b : icount (a ++ b) = icount a + icount b.
+Proof. induction a as [|x r IH]; cbn [app icount]; [lia|]. destruct x; lia. Qed.
+
+Lemma emit_len_flatten : forall p pos cap stk, len (emit (flatten p) pos cap stk) = icount (flatten p).
+Proof.
+  induction p using pat_ind'; intros pos cap stk; try reflexivity.
+  - cbn [flatten emit icount]. rewrite app_nil_r. unfold emit_repeat.
+    destruct (ty =? 42) eqn:E1; [reflexivity|]. destruct (ty =? 43) eqn:E2; cbn [orb].
+    { destruct (ty =? 45) eqn:E3; [lia|reflexivity]. }
+    destruct (ty =? 45) eqn:E3; [reflexivity|]. destruct (ty =? 63); reflexivity.
+  - assert (Hl : forall pos cap stk, len (emit (flatten_seq l) pos cap stk) = icount (flatten_seq l)).
+    { induction l as [|x r IHr]; intros pos0 cap0 stk0; cbn [flatten_seq]; [reflexivity|].
+      inversion H; subst. rewrite (emit_split_flatten x). rewrite len_app, icount_app. rewrite H2, (IHr H3). reflexivity. }
+    rewrite flatten_cap. cbn [emit icount]. rewrite (emit_split_flatten_seq l [FClose]). cbn [emit].
+    rewrite len_cons, len_app, Hl, icount_app. cbn [icount]. rewrite len_cons, len_nil. lia.
+Qed.
+
+Lemma emit_len_flatten_seq : forall l pos cap stk, len (emit (flatten_seq l) pos cap stk) = icount (flatten_seq l).
+Proof.
+  induction l as [|x r IH]; intros pos cap stk; cbn [flatten_seq]; [reflexivity|].
+  rewrite (emit_split_flatten x). rewrite len_app, icount_app, emit_len_flatten, IH. reflexivity.
+Qed.
+
+Lemma goVM_terminates (p : seqpat) (src : bytes) (sp0 : Z) :
+  0 <= sp0 <= len src ->
+  1 + Z.of_nat (vm_fuel src (goCompile p)) <= maxRecursionLevel ->
+  goVM src (goCompile p) (vm_fuel src (goCompile p)) 0 sp0 <> VFuel.
+Proof.
+  intros Hsp Hrl. unfold goVM.
+  set (items := flatten_seq (patterns p)). set (tail := must_tail p). set (prog := goCompile p) in *.
+  assert (Hprog : prog = ISave 0 :: (emit items 1 2 [] ++ epi tail)) by apply goCompile_emit.
+  assert (Hcode : code_at prog 1 (emit items 1 2 [] ++ epi tail)).
+  { intros i ins Hi. pose proof (zth_some_range _ _ _ Hi). rewrite Hprog.
+    rewrite zth_cons by lia. replace (1 + i - 1) with i by lia. exact Hi. }
+  assert (Hlen : len prog = 1 + icount items + len (epi tail)).
+  { rewrite Hprog, len_cons, len_app. unfold items. rewrite emit_len_flatten_seq. lia. }
+  assert (Hepi : 2 <= len (epi tail)) by (unfold epi; destruct tail; cbn; lia).
+  assert (Hfuel : icount items + 3 + 3 * (len src - sp0) + 1 <= Z.of_nat (vm_fuel src prog)).
+  { unfold vm_fuel. rewrite Nat2Z.inj_add, !Nat2Z.inj_mul, !Nat2Z.inj_add.
+    change (Z.of_nat (length prog)) with (len prog). change (Z.of_nat (length src)) with (len src).
+    pose proof (icount_nonneg items). pose proof (len_nonneg src).
+    assert (0 <= len prog * len src) by (apply Z.mul_nonneg_nonneg; lia).
+    cbn [Z.of_nat Pos.of_succ_nat Pos.succ].
+    generalize dependent (len prog). generalize dependent (len src). generalize dependent (icount items).
+    generalize dependent (len (epi tail)). clear. intros E HE I HI Bz Hsp HBz A HA Hprod.
+    replace ((A + 2) * (Bz + 2) * 4 + 16) with (4 * (A * Bz) + 8 * A + 8 * Bz + 32) by ring. lia. }
+  pose proof (icount_nonneg items) as Hicn.
+  destruct (vm_fuel src prog) as [|f] eqn:Ef; [lia|].
+  assert (H0 : zth prog 0 = Some (ISave 0)) by (rewrite Hprog; reflexivity).
+  cbn [vm_run]. rewrite H0.
+  assert (Hsc : setCapture [] 0 sp0 = (0, [2 * sp0])) by reflexivity. rewrite Hsc.
+  destruct (1 + 1 >? maxRecursionLevel) eqn:E1; [unfold maxRecursionLevel in E1; lia|].
+  change (0 + 1) with 1.
+  pose proof (vm_no_fuel src prog tail f items 1 sp0 (1 + 1) [2 * sp0] 2 [] Hcode Hsp) as Hn.
+  unfold depth_bound in Hn. specialize (Hn ltac:(lia) ltac:(lia)).
+  destruct (vm_run src prog f 1 sp0 (1 + 1) [2 * sp0]) as [[|] nsp m'| | |]; try discriminate; congruence.
 Qed.
